@@ -255,7 +255,11 @@ def gen_case(rng, pid, tier):
             ops.append(['ssync'])
         elif malformed:
             ops.append(touch_op())
-    return {'cidr': cidr, 'ops': ops, 'symvips': rng.random() < 0.25}
+    sym = rng.random() < 0.25
+    # (side stream) the owner entries are symbolic links that all resolve to ONE place (owners are told apart by the
+    # NAME of their entry, whatever it resolves to)
+    olinks = random.Random(repr(rng.getstate()[1][:4]) + 'owner-links').random() < 0.2
+    return {'cidr': cidr, 'ops': ops, 'symvips': sym, 'ownerlinks': olinks}
 
 
 def case_ops(case):
@@ -263,7 +267,8 @@ def case_ops(case):
 
 
 def with_ops(case, ops):
-    return {'cidr': case['cidr'], 'ops': list(ops), 'symvips': case.get('symvips', False)}
+    return {'cidr': case['cidr'], 'ops': list(ops), 'symvips': case.get('symvips', False),
+            'ownerlinks': case.get('ownerlinks', False)}
 
 
 # --------------------------------------------------------------------------------------
@@ -626,8 +631,15 @@ def _run(case, root):
                 if kind == 'spawn':
                     who = op[1]
                     line = 'spawn %d' % intern(who)
-                    with open(os.path.join(owners_dir, who), 'a'):
-                        pass
+                    if case.get('ownerlinks') and '#' not in who:
+                        tgt_ = owners_dir.rstrip(os.sep) + '.target'
+                        os.makedirs(tgt_, exist_ok=True)
+                        if not os.path.lexists(os.path.join(owners_dir, who)):
+                            os.symlink(tgt_, os.path.join(owners_dir, who))
+                        run.tags.add('owner-entries-are-links')
+                    else:
+                        with open(os.path.join(owners_dir, who), 'a'):
+                            pass
                 elif kind == 'kill':
                     line = 'kill %d' % intern(op[1])
                     try:
